@@ -40,6 +40,7 @@ EXTRA = ["3", "-2/5", "5/7", "3*c", "-1*c", "1*d", "-4/3*a", "7/2*e"]
 # sub-alphabets for the exhaustive 3x3 / quick 2x3 enumerations (0 always first)
 SUB5 = [["0", "1", "-1", "1*a", "1*b"], ["0", "1", "2", "1*a", "2*a"], ["0", "2", "1/2", "1*a", "-1/3*b"],
         ["0", "-1", "1/2", "2*a", "1*b"], ["0", "1", "1*a", "2*a", "1*b"]]
+SUB3 = [["0", "1", "1*a"], ["0", "1*a", "1*b"], ["0", "1*a", "2*a"], ["0", "1", "2"], ["0", "-1", "1*b"]]
 SUB4 = [["0", "1", "1*a", "1*b"], ["0", "1", "2", "1*a"], ["0", "1", "1*a", "2*a"], ["0", "1", "-1", "2"],
         ["0", "1/2", "1*a", "-1/3*b"]]
 
@@ -441,7 +442,8 @@ class C13(Prop):
     title = "symbolic Gaussian elimination is an exact factorisation"
     design_ref = "DESIGN.md section 5 / C13"
     rule = ("exhaustive enumerations (cut into blocks) of all r x c matrices over the alphabet {0, 1, -1, 2, 1/2, a, 2a, b, -b/3}: "
-            "quick: every shape with <= 4 entries except 1x4/4x1, 2x3 and 3x2 over a seed-rotated 5-letter sub-alphabet; "
+            "quick: every shape with <= 4 entries except 1x4/4x1, 2x3 and 3x2 over a seed-rotated 5-letter sub-alphabet, 3x3 over a "
+            "seed-rotated 3-letter sub-alphabet; "
             "thorough: also 1x4, 4x1, 2x3, 3x2 over the full alphabet and 3x3 over a seed-rotated 4-letter sub-alphabet; "
             "random full-alphabet 3x3 blocks; random matrices up to 6x6 over a wider alphabet with zero rows/columns, "
             "parallel rows/columns and rank-deficient numeric blocks; the empty matrix as malformed input. "
@@ -539,6 +541,7 @@ class C13(Prop):
         else:
             cases += self._blocks(sub5, 2, 3, 625)
             cases += self._blocks(sub5, 3, 2, 625)
+            cases += self._blocks(SUB3[rot % len(SUB3)], 3, 3, 729)
             if stream != "main":
                 cases += self._blocks(sub4, 3, 3, 512, lo=0, hi=512 * 8 * budget_scale)
         # random full-alphabet blocks of 9 consecutive codes (first entry runs through the alphabet)
